@@ -35,7 +35,7 @@ RULE = ('1..2 generated module classes (2..6 accessibles out of value/target/p1.
         'frappy.rwhandler.CommonWriteHandler); optional custom mandatory module property) x '
         '1..3 config files with 1..3 Mod() sections each (overlapping names -> merging) x per accessible one of: not '
         'configured, bare value, Param(value, props), Param(props) with props out of min/max/unit/visibility/export/'
-        'readonly/group/description/needscfg/default, Group(); every sixth case (and 40 % of the string/blob/array '
+        'readonly/group/description/needscfg/default/constant, Group(); every sixth case (and 40 % of the string/blob/array '
         'parameters elsewhere): Param(value, <override>, ...) where the overridden datatype property decides whether the '
         'value is legal - string minchars/maxchars/isUTF8, blob minbytes/maxbytes, array minlen/maxlen (+ keys forwarded '
         'to the element type), float/int/scaled min/max; length of the value and overridden length drawn around each other '
@@ -56,8 +56,9 @@ ASSUMPTIONS = [
     'datatype.default of the class-level datatype is supplied as data',
     'two accessibles configured with the same export name (rejected by the code as configuration error, modelled) are '
     'not judged by the direct oracle',
-    'Limit parameters, `constant`, `datatype`, `update_unchanged`, `influences` in the configuration, io/attached modules '
-    'and Pinata modules are not generated',
+    'Limit parameters, `datatype`, `update_unchanged`, `influences` in the configuration, io/attached modules '
+    'and Pinata modules are not generated; a configured `constant` is generated and modelled (Parameter.finish: converted, '
+    'exported, readonly), class-level constants only for datatypes other than blob / scaled',
     'the poll thread body is run synchronously (frappy.modulebase.mkthread patched) up to the start callback; the '
     'scheduling of the real thread is C13/C15',
     'error messages are only classified by their fixed prefix/shape (kind, item), never compared',
@@ -188,6 +189,8 @@ def build_class(cd, idx):
             kw['default'] = G.untag(p['default'])
         if p.get('value') is not None:
             kw['value'] = G.untag(p['value'])
+        if p.get('constant') is not None and p.get('dt'):
+            kw['constant'] = G.untag(p['constant'])
         dtobj = build_dt(p['dt'], p.get('unit', '')) if p.get('dt') else None
         ns[n] = Parameter(p.get('descr'), dtobj, **kw)
         if p.get('optional'):
@@ -237,7 +240,7 @@ def describe_class(cls, cd):
              'predef': PREDEFINED_ACCESSIBLES.get(n) is not None and isinstance(a, PREDEFINED_ACCESSIBLES[n]),
              'descr': pv.get('description'), 'export': a.export, 'visibility': int(a.visibility), 'group': a.group,
              'gd': None, 'unit': '', 'dtdefault': ['none'], 'readonly': False, 'needscfg': False, 'default': None,
-             'value': None, 'has_write': False, 'wfunc': False, 'polled': False, 'takes': []}
+             'value': None, 'has_write': False, 'wfunc': False, 'polled': False, 'takes': [], 'constant': None}
         if not iscmd:
             r['readonly'] = bool(a.readonly)
             r['needscfg'] = bool(a.needscfg)
@@ -245,6 +248,8 @@ def describe_class(cls, cd):
                 r['default'] = G.tag(pv['default'])
             if 'value' in pv:
                 r['value'] = G.tag(pv['value'])
+            if pv.get('constant') is not None:
+                r['constant'] = G.tag(pv['constant'])       # the exported form Parameter.finish stored at class creation
             if a.hasDatatype():
                 cp = a.copy()
                 r['gd'] = G.gal_dtype(p['dt'], cp.datatype)
@@ -332,9 +337,10 @@ def snapshot(mod, probes, cfgkeys):
         r = {'name': n, 'iscmd': iscmd, 'descr': a.propertyValues.get('description'), 'visibility': int(a.visibility),
              'group': a.group, 'export': a.export if a.export is False else str(a.export), 'value': ['none'],
              'readonly': False, 'limits': None, 'unit': '', 'uninit': False, 'probes': [], 'shape': [],
-             'readerror': None}
+             'readerror': None, 'constant': ['none']}
         if not iscmd:
             r['value'] = G.tag(a.value)
+            r['constant'] = G.tag(a.constant)
             r['readonly'] = bool(a.readonly)
             r['uninit'] = isinstance(a.readerror, ConfigError)
             r['readerror'] = None if a.readerror is None else type(a.readerror).__name__
@@ -511,13 +517,13 @@ def enc_param(r):
     return ('{| p_name := %s; p_iscmd := %s; p_optional := %s; p_predef := %s; p_dt := %s; p_unit := %s; '
             'p_dtdefault := %s; p_descr := %s; p_readonly := %s; p_needscfg := %s; p_export := %s; p_visibility := %s; '
             'p_group := %s; p_default := %s; p_value := %s; p_has_write := %s; p_wfunc := %s; p_polled := %s; '
-            'p_uninit := false; p_takes := %s |}' % (
+            'p_uninit := false; p_takes := %s; p_constant := %s |}' % (
                 gs(r['name']), gal.boolean(r['iscmd']), gal.boolean(r['optional']), gal.boolean(r['predef']),
                 gopt(r['gd'], lambda x: x), gs(r['unit']), G.gal_val(r['dtdefault']), gopt(r['descr'], gs),
                 gal.boolean(r['readonly']), gal.boolean(r['needscfg']), enc_expo(r['export']), gal.z(r['visibility']),
                 gs(r['group']), gopt(r['default'], G.gal_val), gopt(r['value'], G.gal_val),
                 gal.boolean(r['has_write']), gal.boolean(r['wfunc']), gal.boolean(r['polled']),
-                gal.lst(r.get('takes') or [], gs)))
+                gal.lst(r.get('takes') or [], gs), gopt(r.get('constant'), G.gal_val)))
 
 
 def enc_class(c):
@@ -578,13 +584,13 @@ def enc_pobs(r):
     lim = 'None' if r['limits'] is None else f'(Some ({G.gal_val(r["limits"][0])}, {G.gal_val(r["limits"][1])}))'
     return ('{| po_name := %s; po_iscmd := %s; po_value := %s; po_readonly := %s; po_visibility := %s; po_group := %s; '
             'po_descr := %s; po_export := %s; po_limits := %s; po_unit := %s; po_uninit := %s; po_probes := %s; '
-            'po_shape := %s |}' % (
+            'po_shape := %s; po_constant := %s |}' % (
                 gs(r['name']), gal.boolean(r['iscmd']), G.gal_val(r['value']), gal.boolean(r['readonly']),
                 gal.z(r['visibility']), gs(r['group']), gs(r['descr'] if r['descr'] is not None else '?none?'),
                 'None' if r['export'] is False else f'(Some {gs(r["export"])})', lim, gs(r['unit']),
                 gal.boolean(r['uninit']),
                 gal.lst(r['probes'], lambda pr: f'({G.gal_val(pr[0])}, {enc_res(pr[1])})'),
-                gal.lst(r.get('shape') or [], gal.z)))
+                gal.lst(r.get('shape') or [], gal.z), G.gal_val(r.get('constant') or ['none'])))
 
 
 def enc_ev(e):
@@ -779,6 +785,8 @@ def gen_class(rng):
             p['default'] = G.tag(gen_valid(rng, d))
         if rng.random() < 0.15:
             p['value'] = G.tag(gen_valid(rng, d))
+        if rng.random() < 0.05 and leaf_of(d)['t'] not in ('blob', 'scaled'):
+            p['constant'] = G.tag(gen_valid(rng, d))      # a class-level constant (exported and readonly at class creation)
         p['has_write'] = rng.random() < 0.5
         p['has_read'] = rng.random() < 0.5
         if rng.random() < 0.025:
@@ -786,6 +794,7 @@ def gen_class(rng):
             p['unit'] = ''
             p.pop('default', None)
             p.pop('value', None)
+            p.pop('constant', None)
         params.append(p)
     # take-over scripts: a write method pops pending start values of other parameters from writeDict and writes them
     takeover = len(params) >= 2 and rng.random() < 0.3
@@ -814,6 +823,8 @@ def gen_props(rng, p, n):
     cands = ['visibility', 'export', 'readonly', 'group', 'description', 'needscfg']
     if d:
         cands.append('default')
+        if rng.random() < 0.5:
+            cands.append('constant')
     if lf is not None:
         cands += ['min', 'max', 'min', 'max']
         if lf['t'] in ('float', 'scaled'):
@@ -839,6 +850,13 @@ def gen_props(rng, p, n):
             r = rng.random()
             v = gen_valid(rng, d) if r < 0.8 else gen_wrong(rng, d) if r < 0.93 else gen_outside(rng, d)
             if v is None and r >= 0.93:
+                v = gen_valid(rng, d)
+        elif k == 'constant':
+            # a configured constant: a value of the datatype (exported and shown in the description, parameter readonly),
+            # of the wrong type / no value of the datatype (must be rejected), outside the numeric limits, None
+            r = rng.random()
+            v = gen_valid(rng, d) if r < 0.7 else gen_wrong(rng, d) if r < 0.88 else gen_outside(rng, d)
+            if v is None and r >= 0.88:
                 v = gen_valid(rng, d)
         elif k == 'unit':
             v = rng.choice(['mK', 'A', '$/min', ''])
@@ -1056,6 +1074,7 @@ def gen_override_case(rng):
             p['unit'] = rng.choice(UNITS) if leaf_of(d)['t'] in ('float', 'scaled') else ''
             p.pop('value', None)
             p.pop('default', None)
+            p.pop('constant', None)
             if rng.random() < 0.5:
                 p['default'] = G.tag(gen_valid(rng, d))
             if rng.random() < 0.6:
@@ -1300,6 +1319,39 @@ def spec_conv(d, v):
     return 'ok', out
 
 
+def spec_export(d, c):
+    """transport (JSON) form of a spec-side converted value c of datatype d"""
+    t = d['t']
+    if t == 'float':
+        return float(c)
+    if t == 'int':
+        return int(c)
+    if t == 'scaled':
+        return int(round(c / G.dec_float(d['scale'])))
+    if t == 'bool':
+        return bool(c)
+    if t == 'enum':
+        return c[2]
+    if t == 'string':
+        return c
+    if t == 'blob':
+        import base64
+        return base64.b64encode(c).decode('ascii')
+    if t == 'array':
+        return [spec_export(d['elem'], x) for x in c]
+    return {n: spec_export(x, c[n]) for n, x in d['members']}
+
+
+def same_json(a, b):
+    if isinstance(b, list):
+        return isinstance(a, list) and len(a) == len(b) and all(same_json(x, y) for x, y in zip(a, b))
+    if isinstance(b, dict):
+        return isinstance(a, dict) and set(a) == set(b) and all(same_json(a[k], b[k]) for k in b)
+    if isinstance(b, float):        # JSON round trip keeps float / int apart
+        return isinstance(a, float) and a == b
+    return type(a) is type(b) and a == b
+
+
 def same_value(observed_tagged, expected):
     """tagged cache value == spec-side converted value (type and value)"""
     v = G.untag(observed_tagged)
@@ -1454,6 +1506,9 @@ def analyse_module(case, m, origin):
             bad.append(f'missing-mandatory:{n}.datatype')
             continue
         lf = numeric_leaf(d)
+        if p.get('constant') is not None and e:
+            unsure = True       # a class-level constant together with a cfg entry (readonly forced, the constant must fit
+            #                     the configured datatype): class definition, not decided by the property
         # the CONFIGURED datatype: the class-level datatype with all length / character-set overrides of this entry
         # applied (independent of the order in which they are written); min/max/unit are treated below
         dcfg = d
@@ -1469,8 +1524,10 @@ def analyse_module(case, m, origin):
         if len_inverted(dcfg):
             bad.append(f'inverted-limits:{n}')
         for k, v in e.items():
-            if k in ('value', 'default'):
-                # the configured value / default must be a value of the CONFIGURED datatype
+            if k == 'constant' and v is None:
+                unsure = True       # "no constant": the property text does not say (the code refuses the entry)
+            elif k in ('value', 'default', 'constant'):
+                # the configured value / default / constant must be a value of the CONFIGURED datatype
                 r = spec_conv(dcfg, v)
                 if r[0] == 'wrong':
                     bad.append(f'wrong-type:{n}.{k}')
@@ -1688,7 +1745,17 @@ def check_applied(case, obs, name, A, o):
                     want = VIS[e[k]] if k == 'visibility' else e[k]
                     if acc.get(k, default) != want:
                         fails.append(_fail('describe', f'module {name}: {n}.{k} configured {want!r}, described {acc.get(k)!r}'))
-            if p['kind'] == 'param' and 'readonly' in e and acc.get('readonly') != bool(e['readonly']):
+            if p['kind'] == 'param' and 'conv_constant' in x:
+                # a configured constant: shown in the description in its transport form, the parameter is readonly
+                wantc = spec_export(x.get('dcfg', p['dt']), x['conv_constant'])
+                if not same_json(acc.get('constant'), wantc):
+                    fails.append(_fail('constant', f'module {name}: {n}.constant configured {e["constant"]!r}, described '
+                                       f'{acc.get("constant")!r}, expected {wantc!r}', module=name, param=n))
+                if acc.get('readonly') is not True:
+                    fails.append(_fail('constant', f'module {name}: {n} has a configured constant but is described as '
+                                       f'readonly={acc.get("readonly")!r}', module=name, param=n))
+            elif (p['kind'] == 'param' and 'readonly' in e and p.get('constant') is None
+                  and acc.get('readonly') != bool(e['readonly'])):
                 fails.append(_fail('describe', f'module {name}: {n}.readonly configured {e["readonly"]!r}, described '
                                    f'{acc.get("readonly")!r}'))
         if p['kind'] != 'param':
@@ -1834,10 +1901,20 @@ def outcome_labels(case, obs):
     if obs['load'] != 'ok':
         return ['load-failed']
     labs = ['node-started' if obs['started'] else 'node-refused', f"files-{len(case['files'])}"] + override_labels(case)
+    mk = dict(obs['mods'])
+    for f in case['files']:
+        for m in f['mods']:
+            for k, kw in m['kws']:
+                if kw[0] == 'param' and any(kk == 'constant' for kk, _ in kw[2]):
+                    labs.append('constant-configured: module ' + mk.get(m['name'], {}).get('kind', '?'))
     for n, m in obs['mods']:
         labs.append('module-' + m['kind'])
         for e in m.get('errs', []):
             labs.append('err-' + e[0])
+        if m['kind'] == 'created':
+            for pr in m['params']:
+                if pr.get('constant', ['none']) != ['none']:
+                    labs.append('constant-on-created-instance')
         if m['kind'] == 'created':
             labs.append(f"writes-{min(3, len([e for e in m['trace'] if e[0] == 'write']))}")
             if m.get('taken'):
